@@ -210,17 +210,19 @@ def run(tier, seed):
         mname, x0, k, lo, hi = [("simple", -1.5, rng.uniform(9.0, 14.0), 2.0, 6.0), ("extended", -10.0, rng.uniform(8.0, 14.0), -1.0, 1.0), ("dual", -2.0, rng.uniform(15.0, 30.0), 3.0, 7.0)][it % 3]
         with p10.Instr() as inst:
             dt_ = rng.choice([5.0, 10.0]); every_ = 1 if it % 2 == 0 else rng.choice([3, 4]); maxs_ = 600 if it % 2 == 0 else rng.choice([600, rng.randint(40, 120)])
-            BatchedTraj(MM[mname](), TrajGenConst([x0], [k], 0, seed=rng.randrange(2 ** 31)), EvenSamplingTrajectory, samples=1, dt=dt_, bounds=[lo, hi], max_steps=maxs_, trace_every=every_,
+            t0_ = [0.0, 250.0, -37.5][(it // 2) % 3]
+            BatchedTraj(MM[mname](), TrajGenConst([x0], [k], 0, seed=rng.randrange(2 ** 31)), EvenSamplingTrajectory, samples=1, dt=dt_, t0=t0_, bounds=[lo, hi], max_steps=maxs_, trace_every=every_,
                         spawn_stack=rng.choice([[2], [3], [2, 2]]), quadrature="gl").compute()
-            info = dict(cls="even-sampling tree", model=mname, x0=x0, k=k, bounds=[lo, hi], trajectories=len(inst.trajs), dt=dt_, trace_every=every_, max_steps=maxs_)
+            info = dict(cls="even-sampling tree", model=mname, x0=x0, k=k, bounds=[lo, hi], trajectories=len(inst.trajs), dt=dt_, trace_every=every_, max_steps=maxs_, t0=t0_)
+            res.count("es-tree/t0=%g" % t0_)
             res.count("es-tree/trace_every=%d" % every_)
             # the step counter of every member counts the steps since the root started: time = nsteps*dt, never beyond max_steps, snapshots on the trace_every grid (the last one excepted)
             for t in inst.trajs:
-                steps_logged = [int(round(float(sn["time"]) / dt_)) for sn in t.tracer]
+                steps_logged = [int(round((float(sn["time"]) - t0_) / dt_)) for sn in t.tracer]
                 offgrid = [q for q in steps_logged[:-1] if q % every_ != 0]
-                if abs(float(t.time) - t.nsteps * dt_) > 1e-9 * max(1.0, abs(float(t.time))) or t.nsteps > maxs_ or offgrid:
-                    bad.append(dict(failed="a trajectory ends at the first step at which the step limit is reached and logs every trace_every-th step (even-sampling tree member %d: step counter %d, time/dt %g, max_steps %d, trace_every %d, logged steps off the grid %r)"
-                                           % (t._v["id"], t.nsteps, float(t.time) / dt_, maxs_, every_, offgrid[:4]), case=info)); break
+                if abs(float(t.time) - (t0_ + t.nsteps * dt_)) > 1e-9 * max(1.0, abs(float(t.time))) or t.nsteps > maxs_ or offgrid:
+                    bad.append(dict(failed="a trajectory ends at the first step at which the step limit is reached and logs every trace_every-th step (even-sampling tree member %d: step counter %d, (time-t0)/dt %g, max_steps %d, trace_every %d, logged steps off the grid %r)"
+                                           % (t._v["id"], t.nsteps, (float(t.time) - t0_) / dt_, maxs_, every_, offgrid[:4]), case=info)); break
             if every_ == 1:
                 # every step logged: consecutive snapshots of every member (inherited history included) are exactly one time step apart
                 gap = None
@@ -275,6 +277,17 @@ def run(tier, seed):
                 if len(tms) != len(want_t) or max(abs(a_ - b_) for a_, b_ in zip(tms, want_t)) > 1e-9 * want_t[-1]:
                     bad.append(dict(failed="a run started from the command line with -t %g%s -e %d -T %d at momentum %g logs the initial condition, every %dth step and the final state, %d steps of dt=%g (logged times %r)" % (dtc_, " -y" if y_ else "", ev_, nt_, kk_, ev_, nt_, want_dt, tms[:4] + tms[-1:]),
                                     case=dict(k=kk_, scale_dt=y_))); break
+    from mudslide.tracer import load_log as _ll
+    import glob as _glob
+    for out_ in ("averaged", "hack"):
+        with _tf.TemporaryDirectory() as td_:
+            _mm.main(["-m", "simple", "-n", "1", "-k", "10", "10", "-s", "2", "-z", "3", "-x", "-3", "-b", "50", "-t", "5", "-T", "12", "-e", "2", "-o", out_, "--log", "yaml", "--logdir", td_], file=_io.StringIO())
+            mains_ = [f_ for f_ in sorted(_glob.glob(os.path.join(td_, "*.yaml"))) if "log_" not in os.path.basename(f_) and "events" not in os.path.basename(f_)]
+            res.count("cli-option-plumbing/logs-on-disk")
+            got_ = [[float(sn["time"]) for sn in _ll(f_)] for f_ in mains_]
+            want_ = [5.0 * j for j in range(0, 13, 2)]
+            if len(got_) != 2 or any(g_ != want_ for g_ in got_):
+                bad.append(dict(failed="a run started from the command line with -t 5 -e 2 -T 12 -o %s --log yaml logs the initial condition, every 2nd step and the final state (times on disk %r, expected %r)" % (out_, got_[:2], want_), case=dict(output=out_))); break
     # ---- snapshot self-consistency on real models: both representations (non-diagonal Hamiltonian), coherent and mixed density matrices
     for it in range(8 if tier == "quick" else 80):
         mname, x0, p0 = [("simple", [-1.0], [12.0]), ("dual", [-2.0], [25.0]), ("super", [-2.0], [9.0]), ("vibronic", [0.1, -0.2, 0.15, 0.05, 0.4], [0.5, -0.3, 0.2, 0.1, 2.0])][it % 4]
